@@ -50,7 +50,7 @@ def run(prop, tier, seed, known):
             period = rng.choice([0.5, 0.75, 1.0])
             start = rng.choice([5.0, 5.25, 6.0])
             ref = np.array([start + i * period for i in range(k)])
-            kind = rng.choice(['same', 'shifted', 'double', 'half', 'jitter', 'few'])
+            kind = rng.choice(['same', 'shifted', 'double', 'half', 'jitter', 'few', 'slip'])
             if kind == 'same':
                 est = ref.copy()
             elif kind == 'shifted':
@@ -63,6 +63,10 @@ def run(prop, tier, seed, known):
                 est = np.sort(ref + np.array([rng.choice([-0.0625, 0, 0.0625]) for _ in ref]))
                 if est.min() < 5.0:          # the shift invariance is claimed for beats at or after the trim time only
                     est = est + 0.0625
+            elif kind == 'slip':
+                # follows the beat, then slips to the off-beat and drops a beat now and then
+                a = rng.randint(2, max(2, k - 3))
+                est = np.array(list(ref[:a]) + [t + period / 2 for j, t in enumerate(ref[a:]) if j % 3 != 1])
             else:
                 est = ref[:rng.randint(0, 2)].copy()
             ev = guard('beat.evaluate(%s)' % kind, lambda: beat.evaluate(ref, est))
